@@ -229,6 +229,12 @@ func (f *FailoverOf[V]) Get(
 
 	// Disabling defer to unlock in background.
 	alreadyLocked = true
+
+	// Copy key to allow mutations of original argument while the build is running in background.
+	keyCopy := make([]byte, len(key))
+	copy(keyCopy, key)
+	key = keyCopy
+
 	// Spawning cache update in background.
 	go func() {
 		defer func() {
